@@ -244,6 +244,30 @@ def r5(ctx, cfg):
                sample="%s -> %s(bank view, validated address)" % (arm, k.rsplit("::", 1)[1]))
         arms.pop(arm[0] if arm else None, None)
     ctx.ob(R, QUERY, "all-balance-arms-present", not arms, "arms without ledger read: %s" % sorted(arms), fn=f, sample="all arms read BALANCES")
+    # the single-denomination answer: the entry whose denom EQUALS the requested one, otherwise coin(0, denom)
+    finds = q.lexical_calls(F, QUERY, "std::iter::Iterator::find")
+    ok = len(finds) == 1
+    d = "no find"
+    if ok:
+        g, b, t = finds[0]
+        a = P.call_args(g, t, b)
+        src_ok = contains(a[0], lambda x: x[0] == "call" and x[1] == B + "get_balance")
+        cl = peel(a[1])
+        ok = src_ok and cl[0] == "closure"
+        if ok:
+            h = F.fn(cl[1])
+            pred, args, pol = q.norm_cond(P.ret(h), True)
+            d = "%s(%s) pol=%s" % (pred, ", ".join(fmt(x)[:40] for x in args), pol)
+            ok = pred == "eq" and pol is True and any(contains(x, lambda y: y[0] == "field" and y[2] == "denom" and peel(y[1])[0] in ("cparam", "bound")) for x in args) and \
+                any(contains(x, lambda y: is_param_field(y, "request", "denom")) for x in args)
+    ctx.ob(R, QUERY, "Balance-selects-by-denom-equality", ok, "single-denomination balance is selected by %s" % d, fn=f, sample="find(|c| c.denom == denom)")
+    dflt = q.lexical_calls(F, QUERY, "cosmwasm_std::coin")
+    ok = False
+    for g, b, t in dflt:
+        a = P.call_args(g, t, b)
+        if peel(a[0]) == ("const", "int", 0) and contains(a[1], lambda y: is_param_field(y, "request", "denom")):
+            ok = True
+    ctx.ob(R, QUERY, "absent-denom-reports-zero-of-that-denom", ok, "the fallback for an absent denomination is not coin(0, denom)", fn=f, sample="unwrap_or_else(|| coin(0, denom))")
     if cfg.has("cosmwasm_1_1"):
         key = B + "get_supply"
         g = ctx.need_fn(R, key)
